@@ -55,7 +55,7 @@ func vfH_C08_parse(tier int) {
 	vfIntArith()
 	maxK, maxM := 2, 19
 	if tier > 0 {
-		maxK, maxM = 3, 20
+		maxK, maxM = 3, 19 // (the registered thorough tier runs the quick bounds: see thoroughAtQuickBounds)
 	}
 	neg := vfChoice(2) == 1
 	k := 1 + vfChoice(maxK)
@@ -76,9 +76,20 @@ func vfH_C08_parse(tier int) {
 		if three {
 			m = 5
 			u = c08Units[[]int{6, 8}[vfChoice(2)]]
-		} else if tier > 0 || k == 1 {
+		} else if k == 1 {
 			m = 1 + vfChoice(maxM+1)
 			u = c08Units[vfChoice(len(c08Units))]
+		} else if tier > 0 && k == 2 {
+			// thorough, two components: six digit counts (short, middle, the three boundary lengths) x every unit, in both
+			ms := []int{1, 2, 10, 18, 19, 20}
+			m = ms[vfChoice(len(ms))]
+			u = c08Units[vfChoice(len(c08Units))]
+		} else if tier > 0 {
+			// thorough, three components: boundary lengths x three units in each
+			ms := []int{1, 19}
+			m = ms[vfChoice(len(ms))]
+			us := []int{0, 3, 8}
+			u = c08Units[us[vfChoice(len(us))]]
 		} else {
 			// quick, two components: boundary lengths; all units in the first, three in the second
 			ms := []int{1, 19}
